@@ -6,6 +6,10 @@ off live data.  Every random choice comes from the `random.Random` handed in."""
 from lib import hexs
 
 NAMES = ['a', 'b', 'c', 'foo', 'bar', 'lambda', 'x', 'y', 'long-symbol-name', 'k', 'λ', '&']
+# long names that agree on a long prefix (8 … 300 characters) and differ only after it, or of which one is a prefix of the
+# other: same name = same symbol, and nothing less than the whole name decides it
+NAMES += [('p%d-' % n) * 1 + 'q' * n + t for n in (8, 16, 31, 32, 40, 63, 64, 100, 255, 256, 300) for t in ('', 'x', 'y')]
+NAMES += ['λ' * 20 + 'a', 'λ' * 20 + 'b', 'λ' * 41 + 'a', 'λ' * 41 + 'b']
 
 
 class HeapGen:
